@@ -129,6 +129,26 @@ func crashFingerprint(stderr string) (string, string) {
 
 // workerBin: C12 runs the race-detector build of the instrumented copy, C20 the instrumented copy,
 // everything else the plain build (see ./check).
+// runtimeInternalCrash: a "fatal error" raised inside the runtime's own traceback machinery, with no
+// frame of orda (or of the harness) before the runtime frames end.
+func runtimeInternalCrash(stderr string) bool {
+	i := strings.Index(stderr, "fatal error: ")
+	if i < 0 || strings.Contains(stderr[:i], "panic: ") {
+		return false
+	}
+	rest := stderr[i:]
+	if !strings.Contains(rest, "runtime.tracebackHexdump") && !strings.Contains(rest, "runtime.(*unwinder)") {
+		return false
+	}
+	// first goroutine block only
+	if j := strings.Index(rest, "\n\ngoroutine "); j > 0 {
+		if k := strings.Index(rest[j+2:], "\n\n"); k > 0 {
+			rest = rest[:j+2+k]
+		}
+	}
+	return !strings.Contains(rest, "orda-io/orda/") && !strings.Contains(rest, "verif/sim/")
+}
+
 func workerBin(pi *propInfo) string {
 	switch {
 	case pi.Race && os.Getenv("VERIF_RACE") != "0":
@@ -209,6 +229,9 @@ func runJob(scratch string, id int, job worker.Job, pi *propInfo, perRunTimeout 
 			v = &kernel.Violation{Property: job.Property, Oracle: job.Property + ".no-race", Fingerprint: raceFingerprint(tail), Message: firstLines(raceBlock(tail), 45)}
 		default:
 			line, fp := crashFingerprint(tail)
+			if fp != "" && runtimeInternalCrash(tail) {
+				fp = "" // the Go runtime itself fell over (seen in race-detector builds while a recovered panic was unwound): not the system under test
+			}
 			if fp == "" && unexplained[idx*100000+vr] == 0 && (job.Mode == "seeds" || job.Mode == "enum" || idx < len(job.Plans)) {
 				// The process went down below the Go runtime's panic machinery (seen once per several
 				// thousand race-detector runs: a bare "SIGSEGV ... PC=" register dump from the tsan
